@@ -8,11 +8,32 @@ PROPS = ['Rangers.Props.C19', 'Rangers.Props.C19Facts']
 DRIVERS = ['C19']
 META = dict(
     level='proof',
-    technique='Lean 4 refinement proof (concrete LevelDB-keyed store vs abstract list) + differential correspondence with the real groupChain code',
-    level_text='proof', level_note='',
-    trusted_base=['Lean 4 kernel'], assumptions=[],
+    technique='Lean 4 representation-invariant / refinement proof of the group-chain store model over all '
+              'operation histories; model tied to the source by a go/ast fact translator (T-gen) and by '
+              'differential execution against the real groupChain code incl. crash-point injection (T-corr)',
+    level_text='Proved for all histories of add / remove-last / fork-switch removal / restart from first boot '
+               '(inv_reachable + clause theorems); crash points inside save/remove and one colliding height '
+               'are proved FALSE (counterexamples replayed on the code, recorded as known findings).',
+    level_note='partial for crash_points (known findings crash:*), and for the height 0x6763757272656e74 '
+               '(key collision with "gcurrent"); full for completed operations and restart after them, '
+               'after the fix: commit to groupChain.remove',
+    trusted_base=['Lean 4 kernel (+ leanchecker in thorough)',
+                  'harness/cmd/c19 and gen/cmd/c19facts (our code; bad-op rule, full-store dump comparison, mutation self-test)',
+                  'goleveldb: a single Put/Delete is atomic and durable; iterator order',
+                  'encoding/json round trip of types.Group', 'sqlite (groupIndex mirror)',
+                  'consensusHelper.CheckGroup stubbed to accept (ids of accepted groups are proper 32-byte ids)'],
+    assumptions=['ids of added groups are not empty, not 8 bytes long and not "gcount" (IdOK); real ids are 32 bytes',
+                 'chain shorter than 2^62 groups',
+                 'genesis groups are predecessor-linked starting from an empty PreGroup (true of the built-in mainnet/dev/robin genesis)',
+                 'no concurrent writers (the chain lock is not modelled)',
+                 'first-boot crash points are not injected (the store is wrapped after initGroupChain returns)'],
     rule='distinct op lines sent to both implementation and model whose model answer is neither bad-op nor unmodelled',
-    explanation='',
+    explanation='Rep l c says the LevelDB-keyed store + in-memory mirror represent the list l; save/AddGroup/remove/'
+                'removeFromCommonAncestor/start-up preserve it (induction over op lists), and count, height index, '
+                'by-id lookup, iterator and sync reader are read off Rep. The driver executes the same definitions '
+                'against the real code on corpus, malformed, random and small-scope-exhaustive op sequences with '
+                'every crash prefix; a go/ast translator re-derives write order, guards and the writer/caller '
+                'inventory on every run.',
 )
 
 
@@ -42,10 +63,10 @@ def correspond(ctx):
     res = []
     if ctx.thorough():
         # every start-up costs ~0.5 MB that is never collected (see harness main): run in parts
-        parts = 6
+        parts = 3
         for i in range(parts):
-            c = vlib.correspond(ctx, 'c19', 'C19', ['mode=corr', 'seqs=80', 'maxops=30', 'depth=5', 'part=%d/%d' % (i, parts)],
-                                timeout=1500)
+            c = vlib.correspond(ctx, 'c19', 'C19', ['mode=corr', 'seqs=150', 'maxops=30', 'depth=4', 'part=%d/%d' % (i, parts)],
+                                timeout=1200)
             c['name'] = 'groupchain-part%d' % i
             c['violations'] = _viols(c.get('stats') if isinstance(c.get('stats'), dict) else None)
             res.append(c)
